@@ -401,7 +401,9 @@ def gen_cases(ctx: Ctx):
     cases.append(("consistency", {"names": ["h2o", "h2"], "method": "AM1", "k": 4}))
     # optional Hamiltonian terms must be in the XL energy as well (AM1 pair correction acting between two methanes)
     cases.append(("consistency", {"names": ["ch4_dimer"], "method": "AM1", "k": int(rng.integers(3, 10)), "options": {"dispersion": True}}))
-    cases.append(("consistency", {"names": [str(rng.choice(["h2o", "nh3", "ch2o"]))], "method": str(rng.choice(["AM1", "PM3"])), "k": int(rng.integers(3, 10)), "callable_param": str(rng.choice(["U_ss", "beta_s", "g_ss", "zeta_s"]))}))
+    cases.append(("consistency", {"names": [str(rng.choice(["h2o", "nh3", "ch2o"]))], "method": str(rng.choice(["AM1", "PM3"])), "k": int(rng.integers(3, 10)), "callable_param": str(rng.choice(["beta_s", "zeta_s", "alpha"]))}))
+    # ... a parameter that also enters the isolated-atom energies (heat of formation = total energy - sum E_iso + sum heats: its geometry dependence is part of the force)
+    cases.append(("consistency", {"names": [str(rng.choice(["h2o", "nh3", "ch2o", "hcn"]))], "method": str(rng.choice(["AM1", "PM3", "MNDO"])), "k": int(rng.integers(3, 10)), "callable_param": str(rng.choice(["U_ss", "U_pp", "g_ss"]))}))
     for k in (range(3, 10) if ctx.thorough else [3, int(rng.integers(4, 9)), 9]):
         cases.append(("stationary", {"names": ["h2o"], "k": int(k)}))
     cases.append(("stationary", {"names": ["h2o"], "k": 4, "ksa": True, "tol": 1e-7}))  # (KSA on an all-hydrogen molecule raises inside fock: noted in DESIGN "also seen")
